@@ -364,6 +364,12 @@ func NewFSNFromDag(nd *dag.ProtoNode) (*FSNodeOverDag, error) {
 // node but the size of the file data that it is storing at the
 // UnixFS layer). The child is also stored in the `DAGService`.
 func (n *FSNodeOverDag) AddChild(child ipld.Node, fileSize uint64, db *DagBuilderHelper) error {
+	// Store the child first: the DAGService may still change how the child
+	// is hashed (identity CID overflow), the link must carry the final CID.
+	if err := db.Add(child); err != nil {
+		return err
+	}
+
 	err := n.dag.AddNodeLink("", child)
 	if err != nil {
 		return err
@@ -371,7 +377,7 @@ func (n *FSNodeOverDag) AddChild(child ipld.Node, fileSize uint64, db *DagBuilde
 
 	n.file.AddBlockSize(fileSize)
 
-	return db.Add(child)
+	return nil
 }
 
 // RemoveChild deletes the child node at the given index.
